@@ -763,6 +763,47 @@ func rulePrecheckSameRows(c *Ctx, rule string) {
 		c.Undecided(rule, f.Name+"|first-catalog-insert", "no call of createTable reaches BTree.insert")
 		return
 	}
+	// the names the rows are built for: what the insert calls are given, the pre-check is given too
+	strArgs := func(after bool) map[types.Object]string {
+		out := map[types.Object]string{}
+		seenChange := false
+		for _, cs := range sites {
+			if cs.InLit != nil || len(cs.Targets) == 0 {
+				continue
+			}
+			reaches := cg.Reach(cs.Targets...)[ins]
+			if reaches {
+				seenChange = true
+			}
+			if seenChange != after {
+				continue
+			}
+			if !after && len(tupleCtorUses(w, cs.Targets)) == 0 {
+				continue // not a validation of catalog rows
+			}
+			for _, a := range cs.Call.Args {
+				if id, ok := ast.Unparen(a).(*ast.Ident); ok {
+					if b, ok := f.TypeOf(id).Underlying().(*types.Basic); ok && b.Info()&types.IsString != 0 {
+						out[f.ObjOf(id)] = id.Name
+					}
+				}
+			}
+		}
+		return out
+	}
+	preNames, postNames := strArgs(false), strArgs(true)
+	if len(preNames) > 0 {
+		for o, nm := range postNames {
+			if _, ok := preNames[o]; !ok {
+				var have []string
+				for _, n := range preNames {
+					have = append(have, n)
+				}
+				sort.Strings(have)
+				c.FailConfined(rule, f.Name+"|precheck-name|"+nm, f.Decl.Pos(), "the catalog rows are inserted for %s, the validation before the first catalog insert is given %s instead: the rows it encodes are not the rows that will be stored (a name of another length passes the size check and the insert is refused after the table has been registered)", nm, strings.Join(have, ", "))
+			}
+		}
+	}
 	post := tupleCtorUses(w, postRoots)
 	pre := tupleCtorUses(w, preRoots)
 	if len(post) == 0 {
@@ -1128,7 +1169,50 @@ func ruleGroupByResolution(c *Ctx, rule string) {
 		}
 		return true
 	})
+	// the value read for the key is the one at the RESOLVED position: an index that is the key of a range over the
+	// list of resolved positions (or over the GROUP BY list) is a position in that list, not in the select list
+	var wrongIdx ast.Node
+	ast.Inspect(f.Decl.Body, func(x ast.Node) bool {
+		ix, ok := x.(*ast.IndexExpr)
+		if !ok {
+			return true
+		}
+		sel, ok := ast.Unparen(ix.X).(*ast.SelectorExpr)
+		if !ok || sel.Sel.Name != "Vals" {
+			return true
+		}
+		id, ok := ast.Unparen(ix.Index).(*ast.Ident)
+		if !ok {
+			return true
+		}
+		ast.Inspect(f.Decl.Body, func(y ast.Node) bool {
+			rs, ok := y.(*ast.RangeStmt)
+			if !ok {
+				return true
+			}
+			k, ok := rs.Key.(*ast.Ident)
+			if !ok || f.ObjOf(k) != f.ObjOf(id) {
+				return true
+			}
+			// ranging over the select list itself yields select positions; over anything else it does not
+			if t := f.TypeOf(rs.X); t != nil && namedTypeIs(t, "sql", "SelectList") {
+				return true
+			}
+			if sl, ok := f.TypeOf(rs.X).Underlying().(*types.Slice); ok {
+				if b, ok := sl.Elem().Underlying().(*types.Basic); ok && b.Info()&types.IsInteger != 0 {
+					wrongIdx = ix
+				}
+				if namedTypeIs(sl.Elem(), "sql", "ColumnReference") {
+					wrongIdx = ix
+				}
+			}
+			return true
+		})
+		return true
+	})
 	switch {
+	case wrongIdx != nil:
+		c.Fail(rule, key, wrongIdx.Pos(), "%s reads the row at the position the grouping column has in the GROUP BY list, not at its resolved position in the select list: `SELECT count(*), year … GROUP BY year` groups by select column 0", exprKey(wrongIdx.(ast.Expr)))
 	case blind != nil:
 		c.Fail(rule, key, blind.Pos(), "%s looks a GROUP BY column up in a map without testing that it is there: `GROUP BY year` against `SELECT t.year` (or an alias) misses, the zero position 0 is used, and the rows are grouped by the first select column", exprKey(blind.(ast.Expr)))
 	case matches == 0:
@@ -1574,5 +1658,367 @@ func ruleDecoderAcceptsMaxCell(c *Ctx, rule string) {
 	})
 	if n == 0 {
 		c.OK(rule, f.Name+"|size-refusal|none", f.Decl.Pos(), 1, "decodeLeaf refuses no cell because of its size")
+	}
+}
+
+// ---- a root move inside a loop of inserts is carried into the next iteration ----------------------------------------
+
+func ruleRootCarriedThroughLoop(c *Ctx, rule string) {
+	c.Rule(rule, "a loop that inserts row after row through one tree handle starts every insert at the tree's current root: where setRoot(R) is called inside the loop with a root variable R that lives outside it, the branch that records a root move (updatePageTable / setPageTableRoot) also stores the new root into R — otherwise the rows after the move are inserted below the old root, which is now only the left half: the catalog shows a table's columns permuted or loses them")
+	w := c.W
+	n := 0
+	for _, name := range w.SortedFuncNames() {
+		f := w.Funcs[name]
+		if f.Pkg != w.Pkgs["storage"] {
+			continue
+		}
+		for _, call := range f.Calls(f.Decl.Body, false, "storage.BTree.setRoot") {
+			loop := enclosingLoop(f.Decl.Body, call)
+			if loop == nil || len(call.Args) != 1 {
+				continue
+			}
+			rid, ok := ast.Unparen(call.Args[0]).(*ast.Ident)
+			if !ok {
+				continue
+			}
+			robj := f.ObjOf(rid)
+			if robj == nil || (loop.Pos() <= robj.Pos() && robj.Pos() <= loop.End()) {
+				continue // looked up afresh in every iteration
+			}
+			// is there an insert through the handle in the loop at all?
+			if len(f.Calls(loop, false, "storage.BTree.insert")) == 0 {
+				continue
+			}
+			n++
+			key := f.Name + "|root-carried|" + rid.Name
+			records := f.Calls(loop, false, "storage.RelationService.updatePageTable", "storage.*.setPageTableRoot")
+			if len(records) == 0 {
+				c.Undecided(rule, key, "the loop records no root move (C01.4 judges that)")
+				continue
+			}
+			carried := false
+			for _, rec := range records {
+				// the innermost if that contains the recording call
+				var branch *ast.IfStmt
+				ast.Inspect(loop, func(y ast.Node) bool {
+					if ifs, ok := y.(*ast.IfStmt); ok && ifs.Body.Pos() <= rec.Pos() && rec.End() <= ifs.Body.End() {
+						branch = ifs
+					}
+					return true
+				})
+				var scope ast.Node = loop
+				if branch != nil {
+					scope = branch.Body
+				}
+				for _, as := range f.assignsTo(scope, robj) {
+					if as.Pos() > rec.Pos() || branch != nil {
+						carried = true
+					}
+				}
+			}
+			if carried {
+				c.OK(rule, key, call.Pos(), 2, "the branch that records a root move stores the new root into %s", rid.Name)
+			} else {
+				c.Fail(rule, key, call.Pos(), "the loop inserts through setRoot(%s) but a recorded root move never updates %s: every row after the move starts at the old root page", rid.Name, rid.Name)
+			}
+		}
+	}
+	if n == 0 {
+		c.Undecided(rule, "subjects", "no loop that inserts through a root variable kept outside the loop")
+	}
+}
+
+// ---- the scanner's tables span their whole enum interval -----------------------------------------------------------
+
+func ruleEnumIntervalLoops(c *Ctx, rule string) {
+	c.Rule(rule, "the token tables are filled over the whole open interval between their boundary constants: a loop `for i := T(x_start) + 1; i < x_end; i++` in the scanner's init starts right after the lower boundary and ends right before the upper one (the bounds are evaluated as constants and compared with the boundary constants they name) — a bound that is off by one drops the first or last keyword / literal kind from the table, and statements using it stop parsing")
+	w := c.W
+	n := 0
+	for _, name := range w.SortedFuncNames() {
+		f := w.Funcs[name]
+		if f.Pkg != w.Pkgs["sql"] || !strings.HasPrefix(f.Decl.Name.Name, "init") {
+			continue
+		}
+		ast.Inspect(f.Decl.Body, func(x ast.Node) bool {
+			fs, ok := x.(*ast.ForStmt)
+			if !ok || fs.Init == nil || fs.Cond == nil {
+				return true
+			}
+			init, ok := fs.Init.(*ast.AssignStmt)
+			if !ok || len(init.Lhs) != 1 || len(init.Rhs) != 1 {
+				return true
+			}
+			iv, ok := init.Lhs[0].(*ast.Ident)
+			if !ok {
+				return true
+			}
+			cond, ok := ast.Unparen(fs.Cond).(*ast.BinaryExpr)
+			if !ok {
+				return true
+			}
+			cid, ok := ast.Unparen(cond.X).(*ast.Ident)
+			if !ok || f.ObjOf(cid) != f.ObjOf(iv) {
+				return true
+			}
+			firstConst := func(e ast.Expr) *types.Const {
+				var out *types.Const
+				ast.Inspect(e, func(y ast.Node) bool {
+					if id, ok := y.(*ast.Ident); ok && out == nil {
+						if cst, ok := f.ObjOf(id).(*types.Const); ok && cst.Pkg() == f.Pkg.Types {
+							out = cst
+						}
+					}
+					return true
+				})
+				return out
+			}
+			lo, hi := firstConst(init.Rhs[0]), firstConst(cond.Y)
+			if lo == nil || hi == nil {
+				return true
+			}
+			n++
+			key := f.Name + "|interval|" + lo.Name() + ".." + hi.Name()
+			loV, ok1 := constantInt(lo.Val())
+			hiV, ok2 := constantInt(hi.Val())
+			var startV, endV int64
+			ok3, ok4 := false, false
+			if cv := f.constOf(init.Rhs[0]); cv != nil {
+				startV, ok3 = constantInt(cv)
+			}
+			if cv := f.constOf(cond.Y); cv != nil {
+				endV, ok4 = constantInt(cv)
+			}
+			if !ok1 || !ok2 || !ok3 || !ok4 {
+				c.Undecided(rule, key, "loop bounds are not constants")
+				return true
+			}
+			last := endV - 1
+			if cond.Op == token.LEQ {
+				last = endV
+			} else if cond.Op != token.LSS {
+				c.Undecided(rule, key, "loop condition %s not understood", exprKey(fs.Cond))
+				return true
+			}
+			switch {
+			case startV != loV+1:
+				c.Fail(rule, key, fs.Pos(), "the loop starts at %d, the first element after %s is %d: the table misses (or wrongly includes) an entry at its lower end", startV, lo.Name(), loV+1)
+			case last != hiV-1:
+				c.Fail(rule, key, fs.Pos(), "the loop ends at %d, the last element before %s is %d: the table misses (or wrongly includes) an entry at its upper end", last, hi.Name(), hiV-1)
+			default:
+				c.OK(rule, key, fs.Pos(), 2, "covers %d..%d, exactly the elements between %s and %s", startV, last, lo.Name(), hi.Name())
+			}
+			return true
+		})
+	}
+	if n < 2 {
+		c.Undecided(rule, "subjects", "only %d table-filling loops over an enum interval found in the scanner's init, expected 2", n)
+	}
+}
+
+// ---- the clauses of a SELECT are parsed in the order SQL writes them -------------------------------------------------
+
+func ruleClauseOrder(c *Ctx, rule string) {
+	c.Rule(rule, "the productions of a SELECT are tried in the order the clauses are written: select list, FROM, WHERE, GROUP BY (TableExpression), ORDER BY, LIMIT/OFFSET — each production's call is dominated by the call of the one before it. Two calls in the wrong order reject the standard spelling (`… ORDER BY a LIMIT 1` stops at LIMIT) although each clause still parses alone")
+	for _, spec := range []struct {
+		fn    string
+		order []string
+	}{
+		{"sql.(*Parser).Select", []string{"sql.Parser.SelectList", "sql.Parser.TableExpression", "sql.Parser.SortSpecificationList", "sql.Parser.LimitOffsetClause"}},
+		{"sql.(*Parser).TableExpression", []string{"sql.Parser.FromClause", "sql.Parser.WhereClause", "sql.Parser.GroupByClause"}},
+	} {
+		f := c.NeedFunc(rule, spec.fn)
+		if f == nil {
+			continue
+		}
+		g := f.Graph()
+		var prev *ast.CallExpr
+		prevName := ""
+		for _, callee := range spec.order {
+			calls := f.Calls(f.Decl.Body, false, callee)
+			short := callee[strings.LastIndex(callee, ".")+1:]
+			key := f.Name + "|order|" + short
+			if len(calls) == 0 {
+				c.Undecided(rule, key, "production %s is not called here", short)
+				prev = nil
+				continue
+			}
+			if prev != nil {
+				pl, ok1 := g.Locate(prev)
+				cl, ok2 := g.Locate(calls[0])
+				switch {
+				case !ok1 || !ok2:
+					c.Undecided(rule, key, "calls not located")
+				case g.Dominates(pl, cl):
+					c.OK(rule, key, calls[0].Pos(), 1, "%s is tried after %s", short, prevName)
+				default:
+					c.Fail(rule, key, calls[0].Pos(), "%s is not tried after %s: a statement that writes its clauses in the standard order is rejected at the keyword of the clause that was tried too early", short, prevName)
+				}
+			}
+			prev, prevName = calls[len(calls)-1], short
+		}
+	}
+}
+
+// ---- closing a store writes its pages ----------------------------------------------------------------------------
+
+func ruleCloseFlushes(c *Ctx, rule string) {
+	c.Rule(rule, "closing a store writes what is in its cache: every success return of fileStore.close passes through flushPages (after the timer has been stopped) and RelationService.Close reaches fileStore.close on every path — USE closes the previous database this way, so a close that only writes the header, or returns early for a store with a flush timer, drops every change made since the last 100 ms tick although the header already counts its keys and pages")
+	f := c.NeedFunc(rule, "storage.(*fileStore).close")
+	if f == nil {
+		return
+	}
+	g := f.Graph()
+	key := f.Name + "|flushes"
+	skipped, _ := g.Forward(nil, g.SuccessEdges, func(nn ast.Node, at Loc) Verdict {
+		if _, isDefer := nn.(*ast.DeferStmt); isDefer {
+			return Go
+		}
+		if g.containsCall(nn, "storage.fileStore.flushPages") != nil {
+			return Cut
+		}
+		if r, ok := nn.(*ast.ReturnStmt); ok {
+			if g.ReturnMayBeNil(r) {
+				return Hit
+			}
+			return Cut
+		}
+		return Go
+	}, func(b *cfg.Block) Verdict {
+		if g.IsNoReturnExit(b) {
+			return Go
+		}
+		return Hit
+	})
+	if skipped {
+		c.Fail(rule, key, f.Decl.Pos(), "fileStore.close can return successfully without flushPages: the pages dirtied since the last timer tick are never written, yet the header (or the next open) treats them as stored")
+	} else {
+		c.OK(rule, key, f.Decl.Pos(), 1, "every success return of close passes through flushPages")
+	}
+	if rf := c.NeedFunc(rule, "storage.(*RelationService).Close"); rf != nil {
+		rg := rf.Graph()
+		miss, _ := rg.Forward(nil, rg.SuccessEdges, func(nn ast.Node, at Loc) Verdict {
+			if _, isDefer := nn.(*ast.DeferStmt); isDefer {
+				if rg.containsCall(nn, "storage.fileStore.close") != nil {
+					return Cut
+				}
+				return Go
+			}
+			if rg.containsCall(nn, "storage.fileStore.close") != nil {
+				return Cut
+			}
+			if r, ok := nn.(*ast.ReturnStmt); ok {
+				if rg.ReturnMayBeNil(r) {
+					return Hit
+				}
+				return Cut
+			}
+			return Go
+		}, func(b *cfg.Block) Verdict { return Hit })
+		c.Check(!miss, rule, rf.Name+"|closes-store", rf.Decl.Pos(), "Close reaches fileStore.close on every success path", "RelationService.Close can return successfully without closing (and thereby flushing) the store")
+	}
+}
+
+// ---- a name that is looked up must be there -------------------------------------------------------------------------
+
+func ruleCheckedNameLookup(c *Ctx, rule, fn string) {
+	c.Rule(rule, "a destination column that the table does not have is an error, not column type 0: in "+fn+" every lookup of a mapped column name in the map built from the catalog is of the comma-ok form and its miss edge returns an error — an unchecked lookup yields the zero value, which is a valid type code (INT), so a misspelt or differently cased -dest-cols name is accepted, the records are reported as stored, and the real column holds NULL")
+	f := c.NeedFunc(rule, fn)
+	if f == nil {
+		return
+	}
+	g := f.Graph()
+	n := 0
+	commaOK := map[*ast.IndexExpr]*ast.AssignStmt{}
+	ast.Inspect(f.Decl.Body, func(x ast.Node) bool {
+		if as, ok := x.(*ast.AssignStmt); ok && len(as.Lhs) == 2 && len(as.Rhs) == 1 {
+			if ix, ok := ast.Unparen(as.Rhs[0]).(*ast.IndexExpr); ok {
+				commaOK[ix] = as
+			}
+		}
+		return true
+	})
+	ast.Inspect(f.Decl.Body, func(x ast.Node) bool {
+		ix, ok := x.(*ast.IndexExpr)
+		if !ok {
+			return true
+		}
+		mt, ok := f.TypeOf(ix.X).Underlying().(*types.Map)
+		if !ok {
+			return true
+		}
+		if kb, ok := mt.Key().Underlying().(*types.Basic); !ok || kb.Info()&types.IsString == 0 {
+			return true
+		}
+		// reads only (not m[k] = v)
+		isStore := false
+		ast.Inspect(f.Decl.Body, func(y ast.Node) bool {
+			if as, ok := y.(*ast.AssignStmt); ok {
+				for _, l := range as.Lhs {
+					if ast.Unparen(l) == ast.Expr(ix) {
+						isStore = true
+					}
+				}
+			}
+			return true
+		})
+		if isStore {
+			return true
+		}
+		n++
+		key := f.Name + "|lookup#" + itoa(n) + "|" + exprKey(ix)
+		as, checked := commaOK[ix]
+		if !checked {
+			c.Fail(rule, key, ix.Pos(), "%s is read without testing that the name is in the map: a name the table does not have yields type code 0 (INT) and the import goes on with it", exprKey(ix))
+			return true
+		}
+		okID, _ := as.Lhs[1].(*ast.Ident)
+		if okID == nil || okID.Name == "_" {
+			c.Fail(rule, key, ix.Pos(), "the presence result of %s is discarded", exprKey(ix))
+			return true
+		}
+		// on the edge where ok is false every path returns a non-nil error before the value is used
+		loc, _ := g.Locate(as)
+		bad, _ := g.Forward(&loc, func(b *cfg.Block, si int) bool {
+			if info, ok := g.EdgeInfo(b, si); ok && !info.Case {
+				cond, val := ast.Unparen(info.Cond), info.Val
+				if u, isNot := cond.(*ast.UnaryExpr); isNot && u.Op == token.NOT {
+					cond, val = ast.Unparen(u.X), !val
+				}
+				if id, ok := cond.(*ast.Ident); ok && f.ObjOf(id) == f.ObjOf(okID) && val {
+					return false // the found edge is not explored
+				}
+			}
+			return true
+		}, func(nn ast.Node, at Loc) Verdict {
+			if r, ok := nn.(*ast.ReturnStmt); ok {
+				if g.ReturnMayBeNil(r) {
+					return Hit
+				}
+				return Cut
+			}
+			return Go
+		}, nil)
+		// the exploration above also walks paths on which ok is never tested: a test must exist
+		tested := false
+		ast.Inspect(f.Decl.Body, func(y ast.Node) bool {
+			if ifs, ok := y.(*ast.IfStmt); ok {
+				ast.Inspect(ifs.Cond, func(z ast.Node) bool {
+					if id, ok := z.(*ast.Ident); ok && f.ObjOf(id) == f.ObjOf(okID) {
+						tested = true
+					}
+					return true
+				})
+			}
+			return true
+		})
+		if !tested || bad {
+			c.Fail(rule, key, ix.Pos(), "a missing name does not end %s with an error on every path", fn)
+		} else {
+			c.OK(rule, key, ix.Pos(), 1, "comma-ok lookup; the miss edge returns an error")
+		}
+		return true
+	})
+	if n == 0 {
+		c.Undecided(rule, f.Name+"|lookups", "no lookup in a map keyed by name found")
 	}
 }
